@@ -21,6 +21,9 @@ func c05Maps(maxEntries int) []map[string]string {
 	// tag sets that differ only in where the boundary between a name and its value falls (a key built by writing names
 	// and values back to back, or "name=value" strings without escaping, cannot tell them apart)
 	out = append(out, map[string]string{"a1": ""}, map[string]string{"": "a1"}, map[string]string{"a": "b=c"}, map[string]string{"a=b": "c"})
+	// a part that STARTS with a separator byte (against {"a":"","b":"2"} above), and parts that END in the escape byte
+	// next to a separator (against {"a":"1,b=2"}): an escaper that treats the first byte, or its own output, differently
+	out = append(out, map[string]string{"a": ",b=2"}, map[string]string{"a": "1\\", "b\\": "2"}, map[string]string{"a": "1\\,b\\=2"})
 	if maxEntries >= 2 {
 		for i := 0; i < len(keys); i++ {
 			for j := i + 1; j < len(keys); j++ {
